@@ -69,14 +69,17 @@ class Pose:
 
 _T = (F(-3, 2), F(1, 4), F(-1))
 P0 = Pose('P0', ((1, 0, 0), (0, 1, 0), (0, 0, 1)))
+# the lattice shifted so that coordinates -1 and -2 occur together (CPython: hash(-1) == hash(-2), which any
+# hash-keyed shortcut in the library confuses); unit bodies land on [0,1]^2 x [-2,-1]
+PZ = Pose('PZ', ((1, 0, 0), (0, 1, 0), (0, 0, 1)), 1, (0, 0, -2))
 P1 = Pose('P1', ((1, 2, 2), (2, 1, -2), (2, -2, 1)), F(1, 2), _T)       # 3/2 x isometry
 P2 = Pose('P2', ((2, 3, 6), (3, -6, 2), (6, 2, -3)), F(1, 4), _T)       # 7/4 x isometry
 P3 = Pose('P3', ((1, 1, 0), (1, 0, 1), (-1, 1, 1)), 1, _T)              # oblique lattice map
-POSES = {'P0': P0, 'P1': P1, 'P2': P2, 'P3': P3}
+POSES = {'P0': P0, 'PZ': PZ, 'P1': P1, 'P2': P2, 'P3': P3}
 
 
 def poses(tier):
-    return [P0, P1] if tier == 'quick' else [P0, P1, P2, P3]
+    return [PZ, P1] if tier == 'quick' else [P0, PZ, P1, P2, P3]
 
 
 # --------------------------------------------------------------------------- bodies
@@ -109,6 +112,9 @@ POLYHEDRA = {
     'hexa-pyramid': ((0, 0, 0), (1, 0, 0), (2, 1, 0), (2, 2, 0), (1, 2, 0), (0, 1, 0), (1, 1, 1)),
     'cut-cube': ((0, 0, 0), (2, 0, 0), (0, 2, 0), (0, 0, 2), (2, 2, 0), (2, 0, 2), (0, 2, 2),
                  (2, 2, 1), (2, 1, 2), (1, 2, 2)),
+    'unit-cube': tuple(product((0, 1), (0, 1), (0, 1))),
+    'unit-tetra': ((0, 0, 0), (1, 0, 0), (0, 1, 0), (0, 0, 1)),
+    'unit-prism': ((0, 0, 0), (1, 0, 0), (0, 1, 0), (0, 0, 1), (1, 0, 1), (0, 1, 1)),
     'spire': ((0, 0, 0), (1, 0, 0), (2, 1, 0), (2, 2, 0), (1, 2, 0), (0, 1, 0), (1, 1, 8)),
     'skew-tetra': ((0, 0, 0), (2, 0, 0), (0, 2, 0), (6, 6, 2)),
     'skew-prism': ((0, 0, 0), (2, 0, 0), (0, 2, 0), (3, 3, 1), (5, 3, 1), (3, 5, 1)),
@@ -129,7 +135,7 @@ def body(name):
     return polygon(name) if name in POLYGONS else polyhedron(name)
 
 
-QUICK_BODIES = ['triangle', 'hexagon', 'tetrahedron', 'cut-cube']
+QUICK_BODIES = ['triangle', 'hexagon', 'tetrahedron', 'cut-cube', 'unit-cube']
 SKEW_BODIES = ['skew-tetra', 'skew-prism']
 
 
@@ -205,12 +211,26 @@ def with_int_mode(fams, tier):
     import copy
     out = []
     for f in fams:
-        if f.name.endswith('/P0'):
+        if f.name.endswith('/P0') or f.name.endswith('/PZ'):
             g = copy.copy(f)
-            g.name = f.name + '#int'
+            # quick: the shifted lattice with int coordinates through the alternative constructor forms
+            # (Line(P,P), Segment(P,V), Plane(a,b,c,d) ...); thorough: every combination
+            g.name = f.name + ('#int#formB' if (tier == 'quick' and f.name.endswith('/PZ')) else '#int')
             if tier != 'quick':
                 out.append(f)
+                if f.name.endswith('/PZ'):
+                    h = copy.copy(f)
+                    h.name = f.name + '#int#formB'
+                    out.append(h)
             out.append(g)
+        elif f.name.endswith('/P1'):
+            # oblique pose: default constructor forms in the quick tier, all forms in the thorough tier
+            out.append(f)
+            if tier != 'quick':
+                for form in ('#formB', '#formC'):
+                    h = copy.copy(f)
+                    h.name = f.name + form
+                    out.append(h)
         else:
             out.append(f)
     return out
